@@ -316,7 +316,11 @@ class CommonCliffordGates(metaclass=CommonCliffordGateMetaClass):
             ValueError: When one or more operations do not have stabilizer effect.
         """
         for op in operations:
-            if op.gate and protocols.has_stabilizer_effect(op.gate):
+            if (
+                op.gate
+                and protocols.has_stabilizer_effect(op.gate)
+                and protocols.has_unitary(op.gate)
+            ):
                 continue
             raise ValueError(
                 "Clifford Gate can only be constructed from the "
